@@ -185,7 +185,7 @@ def work(item):
   return [r]
 
 
-PACK = 8
+PACK = 16
 
 
 def _pack_src(ctx, stmts):
@@ -217,8 +217,10 @@ def run(rep, tier, seed):
   depth = 2
   items = [("psfull-bucket", (depth, b), None) for b in psfull.buckets(depth)]
   if tier == "quick":
-    items = [it for it in items if it[1][1][0] in ("mod", "afn")]
-    nseeds, max_lines = 4, 0
+    # quick: depth 2 in the async-function context (admits the most forms) + depth 1 in every context
+    items = [it for it in items if it[1][1][0] == "afn"]
+    items += [("psfull-bucket", (1, b), None) for b in psfull.buckets(1) if b[0] != "afn"]
+    nseeds, max_lines = 2, 0
   else:
     nseeds, max_lines = 60, 400
   for pid, src in seed_programs(nseeds):
@@ -238,7 +240,8 @@ def run(rep, tier, seed):
   for pid, src in pats:
     items.append(("pattern", pid, src))
   for aid, src in psexpr.annotations():
-    items.append(("annot", aid, src))
+    if tier != "quick" or aid.startswith(("ann:mod/", "ann:fn/")):
+      items.append(("annot", aid, src))
   sigs = {}
   for item, results in vrun.pmap(work, items, seed=seed, chunksize=1, progress=2000):
     for r in results:
@@ -258,7 +261,7 @@ def run(rep, tier, seed):
           rep.outcome("further-inputs-with-a-reported-signature")
   rep.sample({"psfull": psfull.source("afn:tryfull.3>asyncfor.0>break") if tier else ""})
   rep.sample({"mutant_of": seed_programs(1)[0][0], "menu": MENU})
-  rep.cov.update({"psfull_depth": depth, "mutation_seeds": nseeds, "token_menu": MENU,
+  rep.cov.update({"psfull_depth": depth if tier != "quick" else "2 in context afn, 1 in the other contexts", "mutation_seeds": nseeds, "token_menu": MENU,
                   "corpus_files": sum(1 for i in items if i[0] == "corpus"), "work_items": len(items),
                   "psexpr_statements": n_expr, "psexpr_pack": PACK,
                   "psexpr_patterns": sum(1 for i in items if i[0] == "pattern"),
